@@ -10,7 +10,7 @@ git -C /repo worktree remove --force $WT 2>/dev/null; rm -rf $WT
 git -C /repo worktree add -q $WT HEAD || exit 1
 mkdir -p $WT/SEED; cp $SRC/* $WT/SEED/
 # demonstrations refer to the agent's own paths
-sed -i "s#${SEEDSRC:-/tmp/mut_$P}#$WT#g; s#/tmp/mut_target_$P#$TGT#g; s#/tmp/mutb_target_$P#$TGT#g; s#/tmp/mutc_target_$P#$TGT#g; s#/tmp/mutd_target_$P#$TGT#g; s#/tmp/mute_target_$P#$TGT#g" $WT/SEED/demo.* 2>/dev/null
+sed -i "s#${SEEDSRC:-/tmp/mut_$P}#$WT#g; s#/tmp/mut_target_$P#$TGT#g; s#/tmp/mutb_target_$P#$TGT#g; s#/tmp/mutc_target_$P#$TGT#g; s#/tmp/mutd_target_$P#$TGT#g; s#/tmp/mute_target_$P#$TGT#g; s#/tmp/mutf_target_$P#$TGT#g" $WT/SEED/demo.* 2>/dev/null
 cd $WT
 run_demo() {
   if [ -f SEED/demo.py ]; then (cd $WT && cargo build --release --offline -q 2>&1 | tail -3; timeout 300 python3 SEED/demo.py > SEED/demo.out 2>&1; echo $?)
